@@ -329,12 +329,19 @@ def check_interval_loop(ctx):
     r, sev, _, sfi = runf(ctx.prog, SAU + 'sum_over_indices', pos=[a, ind])
     if sev.issues:
         raise AnalysisError(f"C01.4: sum_over_indices not canonicalisable: {sev.issues[:3]}")
-    r = need_num(ctx, 'C01.4', 'sum_over_indices result', r, sfi)
     lo, hi = ind.at(sym.idx()).r, ind.at(sym.idx() + C(1)).r
     want = sym.mk_sum(a.at(sym.idx() + lo).r, hi - lo)
-    ctx.check(r.length is not None and r.r == want and r.length == J, 'C01.4',
-              'sum_over_indices: element j = sum of a[ind[j] : ind[j+1]] (half-open), one element per consecutive pair',
-              f"code: {show(r, 300)}\nspec: {sym.show(want)[:300]} | len {sym.show(J)}", sfi.loc(), sfi.qualname, 'range-sums')
+    from .common import foreign_heads
+    fh_ = foreign_heads(r, Num(want, J))
+    if fh_ and not (isinstance(r, Num) and r.length is not None and r.r == want):
+        ctx.unknown('C01.4', 'sum_over_indices: element j = sum of a[ind[j] : ind[j+1]] (half-open), one element per consecutive pair',
+                    f"construction not recognised (uses {fh_})\ncode: {show(r, 300)}", sfi.loc(), sfi.qualname, 'sum-over-indices')
+        r = None
+    else:
+        r = need_num(ctx, 'C01.4', 'sum_over_indices result', r, sfi)
+    ctx.check(r is None or (r.length is not None and r.r == want and r.length == J), 'C01.4',
+              'sum_over_indices: element j = sum of a[ind[j] : ind[j+1]] (half-open), one element per consecutive pair' + (' [not decided here]' if r is None else ''),
+              f"code: {show(r, 300) if r is not None else ''}\nspec: {sym.show(want)[:300]} | len {sym.show(J)}", sfi.loc(), sfi.qualname, 'range-sums')
 
 
 def _root(v):
